@@ -21,6 +21,11 @@ def I(name, entry, what, tiers=Q, **c):
              cdefs={'VP_CFG': cfg(**c), 'VP_ACTIVATE_HOOK': 'vp_c10_on_signal', 'VP_SIGLOG_CAP': 8},
              bound=PRE % fixed(**c) + what)
     d.update(kw); return d
+def BI(a, m, r):
+    i = I('bind_%s%s%s' % (['result', 'error', 'nobind'][a], '_sm' if m else '', '_nojid' if (a == 0 and not r) else ''), 'bind_answer',
+          'real startResourceBinding step (stream management %s), then handlePacketReceived(%s)' % (['not offered', 'offered'][m], ['<iq type=result id=ID><bind><jid>1..2 units, %s</jid></bind></iq>' % ['not a full JID', 'a full JID'][r], '<iq type=error id=ID><bind/></iq>', '<iq type=result id=ID/>'][a]),
+          session=False, ev=a | m << 2, tiers=Q if (a, m, r) in ((0, 0, 1), (0, 1, 1)) else T)
+    i['cdefs'].update({'C10_RE_MATCHES': r, 'QS_CAP': 96}); return i
 DISC = 'socket disconnected (_q_socketDisconnected)'
 SE = 'socketError(any QAbstractSocket::SocketError), socket connected or not'
 INST = (
@@ -60,9 +65,7 @@ INST = (
     + [I('sm_%s_%s%s' % (['enable', 'resume'][r], [['failed', 'enabled', 'other'], ['failed', 'resumed', 'other']][r][a], '_bind' if b else ''), 'sm_answer',
          'real request step (%s; resource binding %s), then handlePacketReceived(%s)' % (['startSmEnable', 'startSmResume'][r], ['not offered', 'offered'][b], ['<failed xmlns=urn:xmpp:sm:3/>', ['<enabled id resume?/>', '<resumed h=<any u32> previd/>'][r], 'one-letter element in urn:xmpp:sm:3'][a]),
          session=False, ev=r | a << 1 | b << 3, tiers=Q if (r, a, b) in ((0, 1, 0), (1, 1, 1), (1, 0, 1), (1, 0, 0)) else T) for r in (0, 1) for a in (0, 1, 2) for b in (0, 1)]
-    + [I('bind_%s%s' % (['result', 'error', 'nobind'][a], '_sm' if m else ''), 'bind_answer',
-         'real startResourceBinding step (stream management %s), then handlePacketReceived(%s)' % (['not offered', 'offered'][m], ['<iq type=result id=ID><bind><jid>1..2 units, full JID or not</jid></bind></iq>', '<iq type=error id=ID><bind/></iq>', '<iq type=result id=ID/>'][a]),
-         session=False, ev=a | m << 2, tiers=Q if (a, m) in ((0, 0), (0, 1)) else T) for a in (0, 1, 2) for m in (0, 1)]
+    + [BI(a, m, r) for a in (0, 1, 2) for m in (0, 1) for r in ((0, 1) if a == 0 else (0,))]
     # local disconnect request, socket error, stream error
     + [I('disconnect_host', 'disconnect_host', 'disconnectFromHost()', L=0),
        I('disconnect_then_disconnected', 'disconnect_then_disconnected', 'disconnectFromHost(), then socket disconnected', L=0),
